@@ -279,7 +279,7 @@ def run_shard(spec, workdir):
     rng = random.Random(spec["seed"])
     res = _rc.new_result(("recipes_with_store_target", "store_targets_checked", "targets_left_unwritten_when_only_a_consumer_was_requested", "pairs_compared", "dag_changed", "materialised_checked", "reference_declined", "optimised_declined_mem"))
     gkw = {"maxdim": spec["maxdim"], "depth": spec["depth"], "allow_zero": False,
-           "weights": {"binary": 16, "unary": 10, "reduce": 12, "multi": 5, "rechunk": 4, "index": 7, "manip": 10, "linalg": 5}}
+           "weights": {"binary": 16, "unary": 10, "reduce": 12, "multi": 5, "rechunk": 4, "index": 7, "manip": 10, "linalg": 5, "castchain": 6}}
     for k in range(spec["n"]):
         g = gen.Gen(rng.getrandbits(48), **gkw)
         recipe, np_vals = g.generate()
